@@ -17,10 +17,10 @@ ID = "C07"
 
 HARNESSES = [
     H("c07_isoterm_atoms", "atoms of every kind: IsoTerm eq <=> (both blank) or Term::eq; Ord: Equal <=> eq, antisymmetric, partial_cmp == Some(cmp)",
-      bound="payload 1 byte over {a,b}; all 4 atom kinds", timeout=1500),
-    H("c07_isoterm_quoted_subject", "quoted triples differing (or not) in the subject only: eq <=> blank-insensitive eq of that component; Ord consistent", bound="nesting depth 1; one symbolic pair of atoms", timeout=1500),
-    H("c07_isoterm_quoted_predicate", "same for the predicate position (generalized RDF allows a blank node there)", bound="nesting depth 1; one symbolic pair of atoms", timeout=1500),
-    H("c07_isoterm_quoted_object", "same for the object position", bound="nesting depth 1; one symbolic pair of atoms", timeout=1500),
+      bound="payload 1 byte over {a,b}; all 4 atom kinds", timeout=900),
+    H("c07_isoterm_quoted_subject", "quoted triples differing (or not) in the subject only: eq <=> blank-insensitive eq of that component; Ord consistent", bound="nesting depth 1; one symbolic pair of atoms", timeout=900),
+    H("c07_isoterm_quoted_predicate", "same for the predicate position (generalized RDF allows a blank node there)", bound="nesting depth 1; one symbolic pair of atoms", timeout=900),
+    H("c07_isoterm_quoted_object", "same for the object position", bound="nesting depth 1; one symbolic pair of atoms", timeout=900),
     H("c07_isoterm_quoted", "quoted triples with subject AND object symbolic: eq <=> component-wise blank-insensitive eq; a quoted triple never equals an atom; Ord consistent",
       bound="nesting depth 1; subject/object symbolic atoms, predicate fixed", tiers=("thorough",), timeout=2400),
 ]
